@@ -61,9 +61,13 @@ Talk == /\ phase \in {"V4", "talk"} /\ nreq < MaxReq /\ ~pending /\ phase' = "ta
         /\ Say("resp") /\ UNCHANGED <<code, stored, mode, expect, pending, nver>>
 \* the accessory sends something of its own accord (an EVENT for a subscription, a keep-alive): at any time
 Unsolicited == /\ Say("event") /\ UNCHANGED <<phase, code, stored, mode, expect, pending, nreq, nver>>
+\* before it verifies, the controller asks for something protected on the same connection (a GET without a body and
+\* without a length header) and is refused in plaintext; the connection is as good as before
+PlainProbe == /\ phase = "M6" /\ mode.a2c = 0 /\ Say("probe")
+              /\ UNCHANGED <<phase, code, stored, mode, expect, pending, nreq, nver>>
 \* a failed attempt does not spoil the connection: the user enters the right code and starts again
 Retry == phase = "M4err" /\ code = "retry" /\ phase' = "start" /\ code' = "right" /\ UNCHANGED <<stored, mode, expect, pending, nreq, nver, last>>
-Next == M1M2 \/ M3M4 \/ M5M6 \/ V1V2 \/ V3V4 \/ Switch \/ Talk \/ Unsolicited \/ Retry
+Next == M1M2 \/ M3M4 \/ M5M6 \/ PlainProbe \/ V1V2 \/ V3V4 \/ Switch \/ Talk \/ Unsolicited \/ Retry
 Spec == Init /\ [][Next]_vars
 
 \* every accessory message is framed the way the controller opens it; pairing messages before the first session are plaintext
